@@ -9,6 +9,7 @@ import (
 	"go/ast"
 	"go/parser"
 	"go/token"
+	"os"
 	"path/filepath"
 	"strconv"
 	"strings"
@@ -187,6 +188,15 @@ func init() {
 		if err != nil {
 			return err
 		}
+		// A shape that is not recognised does NOT make the generated file uncompilable (the oracle must still
+		// build so that the monitors can search for a failing input): the fact gets a fallback value, the
+		// problem is listed in `extractionProblems`, and Props/C19 proves `extractionProblems = []` and the
+		// concrete values it needs — so the proofs break visibly.
+		var problems []string
+		problem := func(e error) {
+			problems = append(problems, e.Error())
+			fmt.Fprintf(os.Stderr, "gofacts: H3Fields: %v (fallback value emitted; dependent proofs will fail)\n", e)
+		}
 		// --- invalidHeaderFields
 		var inv []string
 		found := false
@@ -214,7 +224,7 @@ func init() {
 			}
 		}
 		if !found {
-			return fmt.Errorf("var invalidHeaderFields not found in http3/headers.go")
+			problem(fmt.Errorf("var invalidHeaderFields not found in http3/headers.go"))
 		}
 		w.P("/-- http3/headers.go `invalidHeaderFields` (connection-specific field names) -/")
 		w.P("def invalidHeaderFields : List (List Nat) := [")
@@ -274,7 +284,8 @@ func init() {
 			return true
 		})
 		if nSwitch != 1 {
-			return fmt.Errorf("parseHeaders: expected exactly one switch over pseudo-header names, found %d", nSwitch)
+			problem(fmt.Errorf("parseHeaders: expected exactly one switch over pseudo-header names, found %d", nSwitch))
+			cases = nil
 		}
 		w.P("/-- http3/headers.go parseHeaders: `switch h.Name` cases for pseudo-header fields; `true` = the case sets isResponsePseudoHeader -/")
 		w.P("def pseudoCases : List (List Nat × Bool) := [")
@@ -291,7 +302,8 @@ func init() {
 		// --- per-field size overhead
 		oh, err := sizeOverhead(ph)
 		if err != nil {
-			return err
+			problem(err)
+			oh = 0
 		}
 		pt := findFunc(hf, "", "parseTrailers")
 		if pt == nil {
@@ -299,7 +311,8 @@ func init() {
 		}
 		oht, err := sizeOverhead(pt)
 		if err != nil {
-			return err
+			problem(err)
+			oht = 0
 		}
 		w.P("/-- http3/headers.go parseHeaders: `sizeLimit -= len(h.Name) + len(h.Value) + <this>` -/")
 		w.P("def headerFieldOverhead : Int := %d", oh)
@@ -345,7 +358,7 @@ func init() {
 		}
 		sd, sq, stl, srej, err := errMapping(hs)
 		if err != nil {
-			return err
+			problem(err)
 		}
 		cf, err := parseOne(c, "http3/stream.go")
 		if err != nil {
@@ -357,13 +370,15 @@ func init() {
 		}
 		cd, cq, ctl, _, err := errMapping(rr)
 		if err != nil {
-			return err
+			problem(err)
 		}
 		emit := func(lean, goName, where string) error {
-			if _, ok := codes[goName]; !ok {
-				return fmt.Errorf("%s: error code %q is not a literal constant of error_codes.go", where, goName)
-			}
 			w.P("/-- %s -/", where)
+			if _, ok := codes[goName]; !ok {
+				problem(fmt.Errorf("%s: error code %q is not a literal constant of error_codes.go", where, goName))
+				w.P("def %s : Int := (-1)", lean)
+				return nil
+			}
 			w.P("def %s : Int := %s", lean, goName)
 			return nil
 		}
@@ -376,7 +391,7 @@ func init() {
 		if stl == "" {
 			w.P("/-- http3/server_conn.go handleRequestStream has no errors.Is(err, errHeaderTooLarge) branch -/")
 			w.P("def srvTooLargeSpecial : Bool := false")
-			w.P("def srvErrTooLarge : Int := %s", sd)
+			w.P("def srvErrTooLarge : Int := srvErrDefault")
 			w.P("def srvTooLargeSends431 : Bool := false")
 		} else {
 			w.P("def srvTooLargeSpecial : Bool := true")
@@ -419,10 +434,17 @@ func init() {
 			}
 		}
 		if !uaFound {
-			return fmt.Errorf("const defaultUserAgent (string literal) not found in http3/client.go")
+			problem(fmt.Errorf("const defaultUserAgent (string literal) not found in http3/client.go"))
 		}
 		w.P("/-- http3/client.go `defaultUserAgent` = %q -/", ua)
 		w.P("def defaultUserAgent : List Nat := %s", leanBytes(ua))
+		w.P("")
+		w.P("/-- shapes gofacts did not recognise (fallback values were emitted for them) -/")
+		qs := make([]string, len(problems))
+		for i, pr := range problems {
+			qs[i] = strconv.Quote(pr)
+		}
+		w.P("def extractionProblems : List String := [%s]", strings.Join(qs, ", "))
 		return nil
 	})
 }
